@@ -56,7 +56,14 @@ def gen_cases(ctx, tag, n, max_steps):
     for i in range(n):
         rng = random.Random(f'C01:{ctx.seed}:{tag}:{i}')   # the same stream for C01 and C04
         try:
-            c = g.gen_case(rng, max_steps)
+            # 2 of 11 programs (18 %) of the quick tier, 1 of 11 of the thorough tier: high-rank fusion stream
+            if i % 11 == 0 or (ctx.quick and i % 11 == 5):
+                c = g.gen_fusion_case(rng, max_steps)
+            elif i % 11 == 3:
+                # 1 of 11 programs: nested pipes with anonymous legs inside, split level by level (label algebra)
+                c = g.gen_nested_label_case(rng, max_steps)
+            else:
+                c = g.gen_case(rng, max_steps)
         except Exception:
             continue
         c['id'] = f'{tag}:{i}'
@@ -68,6 +75,7 @@ def gen_cases(ctx, tag, n, max_steps):
 # --------------------------------------------------------------------------------------------- model input
 
 LEAN_DROP = {'via', 'malformed', 'what', 'dtype', 'deep', 'src_dtype'}
+KERNEL_SENSITIVE = {'iadd_prefactor_other', 'tensordot'}   # the steps whose model takes the kernel parameter
 
 
 def lean_arr(d):
@@ -214,6 +222,7 @@ def statistics(res, cases, outs):
     from vlib import arrgen
     for case, out in zip(cases, outs):
         res.count('program_len=%d' % len(case['steps']))
+        res.count('stream=' + case.get('stream', 'general'))
         res.count('scalar=' + case.get('scalar', 'int'))
         res.count('ncharges=%d' % len(case.get('mods', [])))
         for d in case['operands']:
@@ -250,16 +259,26 @@ def execute(ctx, cases, configs=('cy', 'py'), use_model=True):
     runs = twoconf.run('harness.c01_worker', cases, configs=configs, nproc=min(nproc, max(1, len(cases))))
     models = {}
     if use_model:
+        # one driver pass for both configurations. The model is a function of its input line, and the `kernel`
+        # field is read by iadd_prefactor_other and tensordot only (lean/drivers/C01.lean): a program without these
+        # steps whose inputs were constructed identically in both configurations is evaluated once.
+        import json
+        lines, keys, where = [], {}, []
         for cfg in configs:
-            lines = []
-            idx = []
+            models[cfg] = {}
             for i, case in enumerate(cases):
                 out = runs[cfg]['results'][i]
                 if out and 'crash' not in out:
-                    lines.append(lean_line(case, out, cfg))
-                    idx.append(i)
-            mo = run_model(lines, nproc=nproc)
-            models[cfg] = {i: m for i, m in zip(idx, mo)}
+                    line = lean_line(case, out, cfg)
+                    sens = any(s.get('op') in KERNEL_SENSITIVE for s in line['steps'])
+                    key = json.dumps({k: v for k, v in line.items() if sens or k != 'kernel'}, sort_keys=True)
+                    if key not in keys:
+                        keys[key] = len(lines)
+                        lines.append(line)
+                    where.append((cfg, i, keys[key]))
+        mo = run_model(lines, nproc=nproc)
+        for cfg, i, k in where:
+            models[cfg][i] = mo[k]
     return runs, models
 
 
@@ -417,7 +436,9 @@ def run_stream(ctx, judge=None, prop=PROP, tag='main', use_model=True, frac=0.62
     used (the batch sequence is a deterministic function of the seed: `(seed, tag, index)` replays)."""
     res, entered = core.Result(), {}
     n_max = QUICK_CASES if ctx.quick else THOROUGH_CASES
-    batch = 275 if ctx.quick else 1500
+    # quick: 5 batches of 220 = 20 x 11 programs (40 of them from the high-rank fusion stream); small batches let a
+    # loaded machine complete more programs within the budget (the deadline is tested between batches)
+    batch = 220 if ctx.quick else 1500
     max_steps = 8 if ctx.quick else 20
     cases = corpus_cases(prop)
     done, k = 0, 0
